@@ -520,8 +520,8 @@ def verify_function(contract, inst, registry):
                 ctx.obls.append(ob)
         res['returns'] = n_ret
         if not outs:
-            res['unsupported'] = 'no feasible path reaches a return or raise statement (contradictory contract or path condition): nothing would be proved'
-            return res
+            # (handled like leaving the subset: the obligations generated so far are still genuine and the refuted ones are reported)
+            raise Unsupported('no feasible path reaches a return or raise statement (contradictory contract or path condition): nothing would be proved')
     except Unsupported as e:
         res['unsupported'] = str(e)
         # obligations generated before the function left the verified subset are still genuine: the refuted ones are reported
@@ -555,8 +555,10 @@ def verify_function(contract, inst, registry):
                 continue        # inconclusive (model search with quantifiers): try the canary of the next return path
             if r == 'unknown' and 'sat' in canary_results:
                 continue
-            status = OK if r == 'sat' else (FAIL if r == 'unsat' else UNDEC)
-            detail = 'canary (a deliberately false postcondition) %s' % ('refuted as required' if r == 'sat' else 'NOT refuted: %s' % r)
+            # a canary that is *proved* means the path condition at the return is contradictory: every post-condition holds
+            # vacuously there - nothing is decided (not a verdict about the code)
+            status = OK if r == 'sat' else UNDEC
+            detail = 'canary (a deliberately false postcondition) %s' % ('refuted as required' if r == 'sat' else 'NOT refuted (%s): the proof of this return path is vacuous' % r)
             if r == 'unknown':
                 # the solver cannot build a model of the (quantified) path condition.  Weaker guard: the path condition must not be
                 # refutable within the full obligation budget - a contradictory path condition is what would make proofs vacuous.
@@ -568,6 +570,9 @@ def verify_function(contract, inst, registry):
         else:
             status = OK if r == 'unsat' else (FAIL if r == 'sat' else UNDEC)
             detail = ob.detail + ((' | counter-model: ' + model) if r == 'sat' else '') + ((' | solver: ' + r) if r not in ('sat', 'unsat') else '')
+            if status == FAIL and getattr(ob, 'structural', False):
+                status = UNDEC
+                detail = 'the loop no longer has the structure its sidecar invariant describes (a type / number-of-axes test of the invariant is false): undecided, not a verdict'
             if r == 'unknown' and n_refute < 3:
                 # no model of the quantified path condition could be built.  Second way to refute: the goal is *false on every
                 # execution that reaches this point* (path condition /\ goal is unsatisfiable) while the path condition itself is
